@@ -655,7 +655,19 @@ def return_forms(fn, depth: int = 2):
         rets = [e for e in p_ if e[0] == "return"]
         if len(rets) != 1 or rets[0][1] is None:
             continue
-        facts = {e[1]: e[2] for e in p_ if e[0] == "cond"}
+        facts = {}
+        feasible_path = True
+        for e in p_:
+            if e[0] == "cond":
+                if facts.get(e[1], e[2]) != e[2]:
+                    feasible_path = False  # the same test taken both ways on one path
+                facts[e[1]] = e[2]
+        if feasible_path:
+            from ..yieldpaths import consistent as _cons
+            # composite facts (a and b is False, ...) must agree with the atomic ones
+            feasible_path = _cons(p_, {k: v_ for k, v_ in facts.items() if " and " not in k and " or " not in k})
+        if not feasible_path:
+            continue
         try:
             v = _ast.parse(rets[0][1], mode="eval").body
         except SyntaxError:
